@@ -41,8 +41,7 @@ ASSUMPTIONS = ["comparison options are NULL (tolerance 0)",
                "ranges are finite (repeat count >= 1): an endless range compares equal to every list it is a "
                "prefix pattern of, which is not transitive by design",
                "ranges with delta have delta and start of one type among c i h f d or both boolean, N x value repeats "
-               "a single value or a whole array, strings are NUL-free, blob length = size of its data",
-               "integer ranges do not overflow (signed overflow is undefined behaviour in C; the model wraps)"]
+               "a single value or a whole array, strings are NUL-free, blob length = size of its data"]
 
 # ---------------------------------------------------------------------------
 # abstract values: ('i',n) ('c',n) ('r',n) ('h',n) ('t',n) ('f',bits) ('d',bits) ('m',bytes)
@@ -103,16 +102,15 @@ def plain(vals):
 def show(tokens): return ",".join(tokens) if tokens else "-"
 
 # --- what a compressed run stands for (property text: N x value; start + i*delta)
+def wrap32(x): return ((x + 2**31) % 2**32) - 2**31
+def wrap64(x): return ((x + 2**63) % 2**64) - 2**63
+
 def range_elem(t, delta, start, i):
-    """i-th element of the range, or None when it is not defined / would overflow"""
+    """i-th element of the range (integers: two's complement wrap-around), None when not defined"""
     if t in "ic":
-        x = start + i * delta
-        if not (I32MIN <= i * delta <= I32MAX and I32MIN <= x <= I32MAX): return None
-        return (t, x)
+        return (t, wrap32(start + i * delta))
     if t == "h":
-        x = start + i * delta
-        if not (I64MIN <= i * delta <= I64MAX and I64MIN <= x <= I64MAX): return None
-        return (t, x)
+        return (t, wrap64(start + i * delta))
     if t == "f":
         return (t, f32bits(f32(bits32f(start) + f32(f32(float(i)) * bits32f(delta)))))
     if t == "d":
@@ -279,9 +277,10 @@ def rnd_run(rng, maxlen, t=None):
             st = rng.choice("TF")
             return [bool_range_elem("T", st, i) for i in range(n)]
         if t in "ich":
-            start = rng.choice([-2, -1, 0, 1, 2, 5, 100, I32MAX - 3 if t != "h" else I64MAX - 3])
-            if t == "c": start = rng.choice([65, 66, 97])
-            delta = rng.choice([-2, -1, 0, 1, 1, 2, 3])
+            big = I64MAX if t == "h" else I32MAX
+            start = rng.choice([-2, -1, 0, 1, 2, 5, 100, big - 3, big - 1, big, -big - 1, -big + 1])
+            if t == "c" and rng.random() < 0.7: start = rng.choice([65, 66, 97])
+            delta = rng.choice([-2, -1, 0, 1, 1, 2, 3, (big + 1) // 2, -(big + 1) // 2, big, -big - 1, 65537])
             es = [range_elem(t, delta, start, i) for i in range(n)]
         elif t == "f":
             start, delta = rng.choice(F32[:9]), rng.choice(F32[:9])
@@ -376,8 +375,10 @@ def delta_for(run):
     if any(v[0] != t for v in run) or t not in "cihfd": return out
     if len(run) == 1:
         cands = [UNIV[t][1][1], UNIV[t][2][1]]
-    elif t in "cih":
-        cands = [run[1][1] - run[0][1]]
+    elif t in "ci":
+        cands = [wrap32(run[1][1] - run[0][1])]
+    elif t == "h":
+        cands = [wrap64(run[1][1] - run[0][1])]
     elif t == "f":
         if not all(isfin32(v[1]) for v in run): return out
         cands = [f32bits(f32(bits32f(run[1][1]) - bits32f(run[0][1])))]
